@@ -204,11 +204,12 @@ def eval_site(sg, params, site, radius_spec, supercell, res: Result):
                 exp, ties = expected(site, ops, M, np.vstack([positions, extra]), radius)
             traj = concretise.make_trajectory(allp.reshape(T, N, 3), ['Li'] * N, M * sc[:, None])
             before = np.array(traj.positions)
-            if len(positions) % 2:
+            if int(round(float(site[0] + site[1]) * 100)) % 2 == 0:
                 traj.displacements  # an earlier analysis may have left the trajectory in displacement mode
             sa.analyze_trajectory(traj, supercell=tuple(supercell), radius=radius)
             shapes = sa.analyze_trajectory(traj, supercell=tuple(supercell), radius=radius)  # second call, same object
-            if not np.array_equal(np.array(traj.positions), before):
+            dpos = np.array(traj.positions) - before
+            if np.any(np.abs(dpos - np.round(dpos)) > 1e-9):  # (a displacement round trip may move values by an ulp)
                 res.violation('shape-analysis-modifies-the-trajectory', case, 'positions differ after analyze_trajectory')
         got = np.asarray(shapes[0].coords, dtype=float).reshape(-1, 3)
         dists = np.asarray(shapes[0].distances())
